@@ -4,7 +4,7 @@
 From Coq Require Import String.
 From KV Require Import Gen.Pins.
 Open Scope string_scope.
-Lemma pin_matrixreps_matrix_rep : src_matrixreps_matrix_rep = "def matrix_rep(p=0, q=0, r=0, signature=None):
+Lemma pin_matrixreps_matrix_rep : src_matrixreps_matrix_rep = "def matrix_rep(p=0, q=0, r=0, signature=None, blades=None):
     d = p + q + r
     I = I2
     P = P2
@@ -38,6 +38,8 @@ Lemma pin_matrixreps_matrix_rep : src_matrixreps_matrix_rep = "def matrix_rep(p=
     for i in range(2, d + 1):
         Rs_grade_i = [reduce(lambda x, y: x @ y, comb) for comb in combinations(Es, r=i)]
         Rs.extend(Rs_grade_i)
+    if blades is not None:
+        Rs = [reduce(lambda x, y: x @ y, (Es[i] for i in blade), Iden) for blade in blades]
     O = ordering_matrix(Rs)
     return [O @ Ri @ O.T for Ri in Rs]".
 Proof. reflexivity. Qed.
@@ -47,7 +49,10 @@ Lemma pin_matrixreps_ordering_matrix : src_matrixreps_ordering_matrix = "def ord
 Proof. reflexivity. Qed.
 Lemma pin_algebra_Algebra_matrix_basis : src_algebra_Algebra_matrix_basis = "@cached_property
 def matrix_basis(self):
-    return matrix_rep(self.p, self.q, self.r, signature=self.signature)".
+    blades = None
+    if self.basis:
+        blades = [tuple((int(c, base=16) - self.start_index for c in name[1:])) for name in self.canon2bin]
+    return matrix_rep(self.p, self.q, self.r, signature=self.signature, blades=blades)".
 Proof. reflexivity. Qed.
 Lemma pin_multivector_MultiVector_asmatrix : src_multivector_MultiVector_asmatrix = "def asmatrix(self):
     bin2index = {k: i for i, k in enumerate(self.algebra.canon2bin.values())}
